@@ -195,6 +195,7 @@ Fixpoint canon_err (e : err) : string :=
   | ERenderNonMapping k => sp "ERenderNonMapping" (hx k)
   | EResolving e => sp "EResolving" (canon_err e)
   | EClassNotFound c => sp "EClassNotFound" (hx c)
+  | EIncludeLoop ch c => ("EIncludeLoop " ++ hx c ++ hxs ch)%string
   | EUnknownNode n => sp "EUnknownNode" (hx n)
   | EClassPath m => sp "EClassPath" (hx m)
   | EDeserialize c e => ("EDeserialize " ++ hx c ++ " " ++ canon_err e)%string
